@@ -134,6 +134,20 @@ def handleJLog : List String → Option String
     pure s!"{chunksToStr m}\t{b2s v}"
   | _ => none
 
+/-- `e2ejson cmdline uniq r1|r2|… <stdout hex>` (harness/cmd/sxdiff/e2esig.go): stdout of a `--json` run of the real
+    binary whose replies were put on the wire in the order `r1, r2, …` (`uniq` = 1 for `arp --live`, where de-duplication
+    is wired).  Model = the bytes the (unique) logger writes for that sequence; Spec = `holdsLog`. -/
+def handleE2EJson : List String → Option String
+  | [_cmd, u, rs, obs] => do
+    let uniq := u == "1"
+    let rs ← (if rs == "-" then some [] else (rs.splitOn "|").mapM parseResult)
+    let m := (if uniq then uniqLogWrites rs else logWrites rs rs.length).flatten
+    let v := match (unhex obs) >>= bytesToChars with
+      | some cs => rs.all Spec.Json.resultWf && Spec.Json.holdsLog uniq rs cs
+      | none => false
+    pure s!"{charsToHex m}\t{b2s v}"
+  | _ => none
+
 /-- N distinct hosts, then repeats of some of them: by `C14_uniq_first_occurrences` the printed lines are
     exactly the N hosts in first-sighting order (the harness counts and compares; too long to list) -/
 def handleJUniqBig : List String → Option String
